@@ -63,6 +63,33 @@ impl Property for C14 {
         let mut built = gen_case(&mut Ch::new(&s[0]), &virtual_cfg());
         // operator binding is C08's business: every operand is parenthesised
         parenthesise_program(&mut built.prog.stmts);
+        // One case in five in which a virtual signal has no column of its own: a real output called `<virtual>_out` is
+        // added, with a column that holds 5 in every row. That column is the output's, not the virtual's: the virtual's
+        // expected value stays X.
+        {
+            let mut nch = Ch::new(&s[1]);
+            let lone: Vec<String> = built.analysis.virtuals.iter().filter(|v| !built.prog.header.contains(v)).cloned().collect();
+            if !lone.is_empty() && nch.chance(1, 5) {
+                let name = format!("{}_out", lone[0]);
+                if !built.sigs.iter().any(|s| s.name == name) && !built.prog.header.contains(&name) {
+                    fn add(bl: &mut [Stmt]) {
+                        for st in bl {
+                            match st {
+                                Stmt::Row(_, es) | Stmt::Repeat(_, _, es) => es.push(Entry::Num(5, Radix::Dec)),
+                                Stmt::Loop(_, _, inner) | Stmt::While(_, inner) => add(inner),
+                                _ => {}
+                            }
+                        }
+                    }
+                    add(&mut built.prog.stmts);
+                    built.sigs.push(Sig { name: name.clone(), bits: 64, kind: Kind::Out });
+                    built.prog.header.push(name);
+                    built.cols = col_roles(&built.prog.header, &built.sigs);
+                    built.analysis = analyse(&built.prog);
+                    out.class("output-named-like-the-out-column-of-a-virtual-without-column");
+                }
+            }
+        }
         let rows = instrument(&mut built, &mut Ch::new(&s[1]), 0, ProbePref::Vars, &[]);
         let text = built_text(&built);
         let mut dch = Ch::new(&s[2]);
